@@ -27,6 +27,7 @@ def run(tier):
     for label, o in (("def", D), ("all", rc.OPTS_ALL)):
         wants = []
         lines = rg.gen_valid(rng, o, 3000 if quick else 40000, wants)
+        lines += rg.gen_escape_offsets(o, 70 if quick else 140)
         targets = [(l, bins[l]) for l in (("def", "arduino", "g2x1s1") if label == "def" else ("all",))]
         rk.run_feed(chk, wd, f"valid-{label}", lines, dict(enumerate(wants)), targets)
     # bounded-exhaustive token strings (includes every short valid text)
